@@ -5,6 +5,7 @@ package server
 import (
 	"context"
 	"net"
+	"time"
 
 	"github.com/fatedier/frp/pkg/auth"
 	v1 "github.com/fatedier/frp/pkg/config/v1"
@@ -413,4 +414,43 @@ func verif_handleConnection(svr *Service, ctx context.Context, conn net.Conn, in
 			verif.Ensures(closed, "refused_visitor_connection_disconnects")
 		}
 	}
+}
+
+// ---------------------------------------------------------------- C14: liveness of the session
+
+// heartbeatWorker: with a positive heartbeat timeout a watchdog runs once a
+// second until the session ends; without one no watchdog is started (the
+// session is then never torn down for liveness reasons).
+//
+//verif:contract (*~/server.Control).heartbeatWorker
+//verif:props C14
+func verif_heartbeatWorker(ctl *Control) {
+	timeout := ctl.serverCfg.Transport.HeartbeatTimeout
+	verif.ResetEvents()
+	ctl.heartbeatWorker()
+	if timeout <= 0 {
+		verif.Ensures(!verif.Called("go:"), "no_watchdog_without_timeout")
+	} else {
+		verif.Ensures(verif.CalledWith("go:github.com/fatedier/frp/pkg/util/wait.Until", 1, time.Second) && verif.CalledWith("go:github.com/fatedier/frp/pkg/util/wait.Until", 2, (<-chan struct{})(ctl.doneCh)), "watchdog_every_second_until_the_session_ends")
+	}
+}
+
+// The watchdog step: the control connection is closed exactly when the last
+// valid heartbeat is older than the configured timeout ("a peer that keeps
+// sending valid heartbeats is never torn down for liveness reasons"; lastPing
+// is refreshed only by handlePing after plugins and verifier accepted, and by
+// NewControl). lastPing only ever holds a time.Time (both stores store
+// time.Now()), so the type assertion cannot fail (assumed, listed).
+//
+//verif:assume-typeassert (*~/server.Control).heartbeatWorker$1
+//verif:contract (*~/server.Control).heartbeatWorker$1
+//verif:props C14
+func verif_heartbeat_watchdog() {
+	ctl := verif.FreeVar[*Control]("ctl")
+	limit := time.Duration(ctl.serverCfg.Transport.HeartbeatTimeout) * time.Second
+	verif.ResetEvents()
+	verif.CallTarget()
+	silent := verif.Ret[time.Duration]("time.Since", 0)
+	verif.Ensures(verif.Called("time.Since"), "age_of_the_last_heartbeat_is_measured")
+	verif.Ensures(verif.Called("Conn).Close") == (silent > limit), "closed_iff_silent_longer_than_the_timeout")
 }
